@@ -38,7 +38,7 @@ func fill(kind int) func([]byte) {
 func main() {
 	r := mc.NewRun("C04")
 	maxLen := mc.Pick(r, 3, 4)
-	r.Rule(fmt.Sprintf("E5: every SNP metadata section list of length <=%d over kinds {1 unmeasured, 2 secrets, 3 CPUID, 4 zero/CAA, 5 unknown} x addresses {0x1000, 0x2000, 0x800 misaligned, 0xfffff000 (wraps 32 bits with length 0x2000)} x lengths {0, 0x1000, 0x2000} (thorough: reduced menu for length 4), plus sweeps of image size/contents, reset-block address, vCPU count and product on valid lists; each compared with the reference digest chain; non-trivial = distinct accepted images whose digest equals the reference, plus distinct rejection classes", maxLen))
+	r.Rule(fmt.Sprintf("E5: every SNP metadata section list of length <=%d over kinds {1 unmeasured, 2 secrets, 3 CPUID, 4 zero/CAA, 5 unknown} x addresses {0x1000, 0x2000, 0x800 misaligned, 0xfffff000 (wraps 32 bits with length 0x2000)} x lengths {0, 0x1000, 0x2000} (thorough: reduced menu for length 4), plus sweeps of image size/contents, reset-block address, vCPU count and product on valid lists, the same through one reused buffer, and five large images (129 pages .. 4 MiB less a page); each compared with the reference digest chain; non-trivial = distinct accepted images whose digest equals the reference, plus distinct rejection classes", maxLen))
 	r.Assume("boot-processor register state is the reset state launched by the GCE hypervisor (restated as an (offset,width,value) table from the APM layout in harness/ref/snp.go)")
 	kinds := []uint32{1, 2, 3, 4, 5}
 	addrs := []uint32{0x1000, 0x2000, 0x800, 0xfffff000}
